@@ -74,6 +74,18 @@ add("C03", "simnet", "model-based fuzzing with hostile-input generators (Hypothe
     "frame enumerated completely. Exploration level: crash paths are found by search, absence is not proved.",
     SIM_NOTE + " Hostile clients use types and ids disjoint from the conversation so the model can ignore them.", "DESIGN.md 4 C03")
 
+MSG_NOTE = ("Trusted base: ctypes, struct (float32 round trip), Hypothesis, the domain model in vlib/msgs.py written from the property text and "
+            "tests/test_validators.py. Don't-cares (bool for ints, NaN for floats, '' for Char, exception types) are never asserted.")
+add("C09", "msgpbt", "property-based testing of every validator family with a domain model (soundness, completeness, atomicity via byte snapshots) + generated forests of disable blocks",
+    "Eleven independent Hypothesis campaigns (one per validator family + disable-validation forests) over core, hand-written and generated "
+    "message classes: every assignment either reads back equal and touches only its field, or raises and leaves all bytes unchanged; "
+    "out-of-domain values must raise at every position of a sequence; validation must be on after every exit from a disable block. "
+    "Exploration level.", MSG_NOTE, "DESIGN.md 4 C09")
+add("C10", "msgpbt", "round-trip property testing (bytes / dict / JSON / Message JSON / copy) over core, hand-written and generated message classes",
+    "Five independent Hypothesis campaigns, one per serialisation route; instances built through the validated field API with extremes, "
+    "-0.0, NaN, control characters, full-length strings and all-0x00/0xFF byte arrays; byte-for-byte identity after each round trip, "
+    "storage-disjoint copies, refusal of a foreign version hash. Exploration level.", MSG_NOTE, "DESIGN.md 4 C10")
+
 PLANNED = {}
 
 
